@@ -148,12 +148,13 @@ func treeOps(w *world, st *treeStats, maxDepth int, withRelist bool, withClose b
 
 func TestC06_Quiet(t *testing.T) {
 	rapid.Check(t, func(t *rapid.T) {
-		cfg := worldCfg{prop: "C06", rootFilter: -1, gatedRelist: true, period: 1500000} // 1.5 ms, lists gated
+		cfg := worldCfg{prop: "C06", rootFilter: -1, gatedRelist: true, period: 1500000, stepChecked: true} // 1.5 ms, lists gated
 		if rapid.IntRange(0, 3).Draw(t, "rootfilter") == 0 {
 			cfg.rootFilter = rapid.IntRange(0, 3).Draw(t, "rf")
 		}
 		w := newWorld(t, cfg)
 		defer w.abort()
+		w.checkQuiet()
 		st := &treeStats{}
 		ops := treeOps(w, st, 3, true, false)
 		for name, op := range ops {
